@@ -4,6 +4,7 @@ Property theorems over the model NeoModel/Model/Persist.lean (helper lemmas: Pro
 `H` = the chain's content (arbitrary), `B` = headerBatchCount (any value > 1), `S` = persistBatchSize.
 -/
 import NeoModel.Proofs.Persist
+import NeoModel.Proofs.PersistReset
 import NeoModel.Generated.Stages
 namespace NeoModel.Persist
 
@@ -156,6 +157,59 @@ theorem reset_not_equal_sync_conflicts :
     (match reset Hw 2000 200000 (nodeAt 2000 2) 1 with | .ok (_, m) => conflictKnown m 0 | .error _ => true) = false ∧
     conflictKnown (nodeAt 2000 1) 0 = true := by
   decide
+
+/-- **reset_resumable_partial** — what holds of `reset_resumable`. For EVERY chain content, node `n`, target `t`
+and batch size `S`: if `reset n t` runs (with at least one batch) to node `n'`, its batches are
+`b1 :: b2 ++ [c3, c4, c5, c6, c7]` (sync point + first marker; block removal, possibly several batches;
+storage copy; header/pointer reset; MPT + transfer reset; SeekGC of the old prefix; marker removal), `n'.db` is
+their fold, and for the database after each COMPLETE stage: if HeaderHashes.init succeeds on it (with the
+stopped node's header height while the headers are not yet reset — it does NOT after `b2` and `c3`, see
+`reset_not_resumable_after_block_removal`), then reopening resumes the reset and returns exactly the node of
+the uninterrupted reset — except that after `c5`/`c6` the stateroot module is left uninitialised
+(`mptReady = false`, finding B). Missing for the full statement: crash points inside the block-removal stage
+when it needs several batches (false: `reset_block_removal_not_idempotent`), and the two header-init failures. -/
+theorem reset_resumable_partial (H : Hist) {B S : Nat} (n n' : Node) (t : Nat) (bs : List Batch)
+    (hreset : reset H B S n t = .ok (bs, n')) (hbs : bs ≠ []) :
+    ∃ (b1 : Batch) (b2 : List Batch) (c3 c4 c5 c6 c7 : Batch),
+      bs = b1 :: b2 ++ [c3, c4, c5, c6, c7] ∧
+      n'.db = applyBatch c7 (applyBatch c6 (applyBatch c5 (applyBatch c4 (applyBatch c3 (foldBatches b2 (applyBatch b1 n.db)))))) ∧
+      (initHeaders B (applyBatch b1 n.db) = .ok n.hdrHeight → recover H B S (applyBatch b1 n.db) = .ok n') ∧
+      (initHeaders B (foldBatches b2 (applyBatch b1 n.db)) = .ok n.hdrHeight →
+        recover H B S (foldBatches b2 (applyBatch b1 n.db)) = .ok n') ∧
+      (initHeaders B (applyBatch c3 (foldBatches b2 (applyBatch b1 n.db))) = .ok n.hdrHeight →
+        recover H B S (applyBatch c3 (foldBatches b2 (applyBatch b1 n.db))) = .ok n') ∧
+      (∀ hh', initHeaders B (applyBatch c4 (applyBatch c3 (foldBatches b2 (applyBatch b1 n.db)))) = .ok hh' →
+        recover H B S (applyBatch c4 (applyBatch c3 (foldBatches b2 (applyBatch b1 n.db)))) = .ok n') ∧
+      (∀ hh', initHeaders B (applyBatch c5 (applyBatch c4 (applyBatch c3 (foldBatches b2 (applyBatch b1 n.db))))) = .ok hh' →
+        recover H B S (applyBatch c5 (applyBatch c4 (applyBatch c3 (foldBatches b2 (applyBatch b1 n.db))))) = .ok { n' with mptReady := false }) ∧
+      (∀ hh', initHeaders B (applyBatch c6 (applyBatch c5 (applyBatch c4 (applyBatch c3 (foldBatches b2 (applyBatch b1 n.db)))))) = .ok hh' →
+        recover H B S (applyBatch c6 (applyBatch c5 (applyBatch c4 (applyBatch c3 (foldBatches b2 (applyBatch b1 n.db)))))) = .ok { n' with mptReady := false }) :=
+  reset_resumable_partial_aux H n n' t bs hreset hbs
+
+/-- non-vacuity: the 2-block chain reset to height 1 meets the hypotheses (7 batches). -/
+example : ∃ bs n', reset Hw 2000 200000 (nodeAt 2000 2) 1 = .ok (bs, n') ∧ bs ≠ [] := by
+  cases h : reset Hw 2000 200000 (nodeAt 2000 2) 1 with
+  | error e => exact absurd (show (match reset Hw 2000 200000 (nodeAt 2000 2) 1 with | .ok _ => true | .error _ => false) = true by decide) (by rw [h]; simp)
+  | ok p =>
+    refine ⟨p.1, p.2, rfl, ?_⟩
+    have : (resetBatches 2000 200000 2 1).length = 7 := reset_has_seven_batches
+    intro e
+    simp [resetBatches, h, e] at this
+
+/-- every stage of the reset is idempotent from its own marker: from the database after any complete stage,
+`resetFrom` with that stage's marker issues exactly the remaining batches and ends in the same database `D`. -/
+theorem reset_stage_idempotent' {H : Hist} {B S t hh : Nat} {d D : Db} {bs : List Batch} {rdy : Bool}
+    (h : resetFrom H B S t stNone hh d = .ok (bs, D, rdy)) :
+    ∃ (b2 : List Batch) (d2 : Db) (cur x r : Nat) (p0 : Bool),
+      stageBlocks H S t cur d = .ok (b2, d2) ∧
+      bs = b2 ++ [stageCopy t p0 d2, stageHeaders B t hh p0, stageMpt t r, stageGc p0, stageDone] ∧
+      resetFrom H B S t stBlocksRemoved hh d2 = .ok ([stageCopy t p0 d2, stageHeaders B t hh p0, stageMpt t r, stageGc p0, stageDone], D, true) ∧
+      resetFrom H B S t stNewItems hh (applyBatch (stageCopy t p0 d2) d2) = .ok ([stageHeaders B t hh p0, stageMpt t r, stageGc p0, stageDone], D, true) ∧
+      (∀ hh', resetFrom H B S t stHeadersReset hh' (applyBatch (stageHeaders B t hh p0) (applyBatch (stageCopy t p0 d2) d2)) = .ok ([stageMpt t r, stageGc p0, stageDone], D, true)) ∧
+      (∀ hh', resetFrom H B S t stTransfersReset hh' (applyBatch (stageMpt t r) (applyBatch (stageHeaders B t hh p0) (applyBatch (stageCopy t p0 d2) d2))) = .ok ([stageGc p0, stageDone], D, false)) ∧
+      (∀ hh', resetFrom H B S t stTransfersReset hh' (applyBatch (stageGc p0) (applyBatch (stageMpt t r) (applyBatch (stageHeaders B t hh p0) (applyBatch (stageCopy t p0 d2) d2)))) = .ok ([stageGc p0, stageDone], D, false)) := by
+  obtain ⟨b2, d2, cur, x, r, p0, _, hsb, hbs, _, _, g8, g4, g16, g32, g32'⟩ := reset_stage_idempotent (Or.inl rfl) h
+  exact ⟨b2, d2, cur, x, r, p0, hsb, hbs, g8, g4, g16, g32, g32'⟩
 
 /-- the other crash points of the same reset resume: after the first marker, after the header reset, … -/
 theorem reset_resumes_elsewhere_example :
